@@ -74,7 +74,40 @@ T2_WINDOW = 16  # thorough: second event at most 16 steps after the first (every
 WAKE_KERNELS = ("_wake_kernel", "_wake_collision_kernel", "_wake_tendon_kernel", "_wake_equality_kernel", "_update_sleep_trees", "_update_sleep_bodies", "_update_sleep_dofs", "_sweep_awake_trees", "_check_island_can_sleep", "_build_cycles", "_compact_dofs")
 
 
+ROW_SCENES = ("row", "row_eq", "row_ten")
+T2 = 24  # step of the two-source wake-up in the row scenes
+GAPS = tuple(range(1, 10))  # the almost-asleep source is woken (tiny kick) GAP steps earlier: its countdown is -10+GAP-1 = -10..-2 at T2
+CHAIN_GAPS = (10, 11, 12)  # ... by then it is asleep again: the freshly woken source reaches it only through the middle sleeper
+
+
+def _row_xml(scene, jac):
+  """Two-source scenes: A - B - C floating in a row (no gravity, very soft contacts), B is the sleeper in the middle."""
+  sec = ""
+  if scene == "row_eq":
+    sec = (
+      '<equality><connect name="e0" body1="B" body2="A" anchor="0 0 0" active="false" solref="10 1"/>'
+      '<connect name="e2" body1="B" body2="C" anchor="0 0 0" active="false" solref="10 1"/></equality>'
+    )
+  elif scene == "row_ten":
+    sec = (
+      '<tendon><spatial name="t0" limited="true" range="0 0.6" solreflimit="10 1"><site site="sb"/><site site="sa"/></spatial>'
+      '<spatial name="t2" limited="true" range="0 0.6" solreflimit="10 1"><site site="sb"/><site site="sc"/></spatial></tendon>'
+    )
+  return f"""<mujoco>
+  <option timestep="0.002" gravity="0 0 0" sleep_tolerance="{TOL}" iterations="20" jacobian="{jac}"><flag sleep="enable"/></option>
+  <default><geom solref="10 1"/></default>
+  <worldbody>
+    <body name="A" pos="-0.5 0 0"><joint name="ja" type="free"/><geom name="ga" type="sphere" size=".1"/><site name="sa"/></body>
+    <body name="B" pos="0 0 0"><joint name="jb" type="free"/><geom name="gb" type="sphere" size=".1"/><site name="sb"/></body>
+    <body name="C" pos="0.5 0 0"><joint name="jc" type="free"/><geom name="gc" type="sphere" size=".1"/><site name="sc"/></body>
+  </worldbody>
+  {sec}
+</mujoco>"""
+
+
 def build_xml(scene, jac="dense", policy=None):
+  if scene in ROW_SCENES:
+    return _row_xml(scene, jac)
   a, b, c = "0 0 0.1", "0.6 0 0.1", "1.4 0.3 0.1"
   bgeom, sec = 'type="box" size=".1 .1 .1"', ""
   if scene in ("stacked", "motor_stacked"):
@@ -141,6 +174,14 @@ def scenarios(tier, seed):
     for mode in ("desc", "rot"):
       for e1 in alphabet(sc, tier):
         out.append(dict(fam="sched", scene=sc, jac="dense", e1=e1, mode=mode, tier=tier, variant=variant))
+  # two-source wake-ups: a sleeper reached in ONE step by an almost-asleep tree (contact) and a freshly woken tree
+  # (contact / equality / tendon), both body orders, every countdown difference; history family and schedule family
+  for sc in ROW_SCENES:
+    for jac in ("dense", "sparse") if (sc == "row" and tier == "thorough") else ("dense",):
+      out.append(dict(fam="twosrc", scene=sc, jac=jac, tier=tier, variant=variant))
+      out.append(dict(fam="chain", scene=sc, jac=jac, tier=tier, variant=variant))
+    for mode in ("desc", "rot"):
+      out.append(dict(fam="sched2", scene=sc, jac="dense", mode=mode, tier=tier, variant=variant))
   return out
 
 
@@ -207,6 +248,23 @@ def _event_edit(ev, variant, scene, q0):
       qvel[6 * t + 2] = 0.00390625
     elif kind == "eq":
       eq[0] = not eq[0]
+    elif kind in ("touch2", "touch2s", "toucheq", "touchten"):
+      # row scenes: t is the freshly woken ("fast") source, 2-t the almost-asleep one; the sleeper is tree 1 at the origin
+      slow = 2 - t
+      sgn = (lambda tree: -1.0 if tree == 0 else 1.0)
+      qpos[7 * slow] = np.float32(sgn(slow) * 0.19)  # 1 cm overlap with the sleeper
+      if kind == "touch2":  # touches during this step only, then flies away
+        qpos[7 * t] = np.float32(sgn(t) * 0.19)
+        qvel[6 * t + 1] = 50.0
+      elif kind == "touch2s":  # touches and stays
+        qpos[7 * t] = np.float32(sgn(t) * 0.19)
+        qvel[6 * t + 1] = KICK[variant]
+      elif kind == "toucheq":  # linked by an equality that becomes active in this step
+        eq[0 if t == 0 else 1] = True
+        qvel[6 * t + 1] = KICK[variant]
+      else:  # linked by a tendon limit that becomes active in this step
+        qpos[7 * t] = np.float32(sgn(t) * 0.7)
+        qvel[6 * t + 1] = KICK[variant]
     elif kind == "drop":
       # C is put on the floor against the -x face of A (2 mm overlap) with a downward velocity: it wakes by velocity and touches A
       qpos[14:17] = [np.float32(q0[0] - 0.198), np.float32(q0[1]), np.float32(0.1 + 0.001953125)]
@@ -215,6 +273,22 @@ def _event_edit(ev, variant, scene, q0):
       qvel[14] = -0.25
 
   return f
+
+
+def _traces2(scene, chain=False):
+  """Row scenes: (tiny kick on the slow source GAP steps before) + (two-source touch at T2), both body orders.
+
+  chain=True: the slow source is asleep (again) at T2, so the three trees form a chain awake - sleeper - sleeper."""
+  kinds = {"row": ("touch2", "touch2s"), "row_eq": ("toucheq",), "row_ten": ("touchten",)}[scene]
+  out = []
+  for slow in (0, 2):
+    fast = 2 - slow
+    for kind in kinds:
+      if chain:
+        out.append([(T2, f"{kind}:{fast}")])
+      for gap in CHAIN_GAPS if chain else GAPS:
+        out.append([(T2 - gap, f"tiny:{slow}"), (T2, f"{kind}:{fast}")])
+  return out
 
 
 def _traces(scn):
@@ -302,6 +376,7 @@ class Monitor:
     self.nt = mjm.ntree
     self.quiet = np.zeros((nworld, self.nt), int)
     self.L = np.array(mjm.dof_length, np.float32)
+    self.tol = float(mjm.opt.sleep_tolerance)
     self.body_tree = np.array(mjm.body_treeid)
     self.geom_tree = self.body_tree[np.array(mjm.geom_bodyid)]
     self.allowed = info["policy"] != 1  # AUTO_NEVER
@@ -351,15 +426,21 @@ class Monitor:
     self.nwake += int(np.sum(pre_asleep & awake))
     mixed = np.any(awake, axis=1) & np.any(~awake, axis=1)
     newly = ~pre_asleep & ~awake
-    need_rows = mixed | np.any(newly, axis=1) | np.any(~awake, axis=1)
+    woken = pre_asleep & awake
+    any_woken = np.any(woken, axis=1)
+    need_rows = mixed | np.any(newly, axis=1) | np.any(~awake, axis=1) | any_woken
     tch = None
     if np.any(need_rows):
       tch = _touched(self.m, d, info, nw)
       any_aw = np.any(tch & awake[:, None, :], axis=2)
       any_as = np.any(tch & ~awake[:, None, :], axis=2)
       for w, r in zip(*np.nonzero(any_aw & any_as)):
-        c.fail("monitor:wake:row_links_awake_and_asleep", tag(w) + f"constraint row {r} (type {int(d.efc.type.numpy()[w, r])}) touches trees {np.nonzero(tch[w, r])[0].tolist()} with awake flags {awake[w].astype(int).tolist()}")
-    if np.any(mixed):
+        # chain: every awake tree of the row was itself asleep when the step began (woken in this very step)
+        chain = bool(np.all(woken[w][tch[w, r] & awake[w]]))
+        vk = "monitor:wake:chain_of_sleepers:row" if chain else "monitor:wake:row_links_awake_and_asleep"
+        c.fail(vk, tag(w) + f"constraint row {r} (type {int(d.efc.type.numpy()[w, r])}) touches trees {np.nonzero(tch[w, r])[0].tolist()} with awake flags {awake[w].astype(int).tolist()} (tree_asleep before {self.ta_pre[w].tolist()})")
+    links = {}
+    if np.any(mixed | any_woken):
       n = min(int(d.nacon.numpy()[0]), d.naconmax)
       if n:
         geom = d.contact.geom.numpy()[:n]
@@ -369,8 +450,37 @@ class Monitor:
         t2 = np.where(ok, self.geom_tree[np.clip(geom[:, 1], 0, None)], -1)
         for i in np.nonzero((t1 >= 0) & (t2 >= 0) & (t1 != t2))[0]:
           w = int(wid[i])
+          links.setdefault(w, set()).add((int(t1[i]), int(t2[i])))
           if awake[w, t1[i]] != awake[w, t2[i]]:
-            c.fail("monitor:wake:contact_links_awake_and_asleep", tag(w) + f"contact {geom[i].tolist()} between trees {int(t1[i])},{int(t2[i])} with awake flags {awake[w].astype(int).tolist()}")
+            aw_t = int(t1[i]) if awake[w, t1[i]] else int(t2[i])
+            vk = "monitor:wake:chain_of_sleepers:contact" if woken[w, aw_t] else "monitor:wake:contact_links_awake_and_asleep"
+            c.fail(vk, tag(w) + f"contact {geom[i].tolist()} between trees {int(t1[i])},{int(t2[i])} with awake flags {awake[w].astype(int).tolist()}")
+    # --- a woken tree inherits the countdown of the most awake tree it touches (contact) or is tied to by an active tendon
+    # limit: after the step its counter is at most (counter of every such source when the step began) + 1; a source that
+    # was itself asleep and woken by its own perturbation in this step counts as fully awake.  The whole sleep cycle of the
+    # woken tree shares it.  (Equalities only wake sleepers, they do not lower the counter of a tree that a contact has
+    # already woken - MuJoCo C behaves the same, see the row_eq traces.)
+    src = (~pre_asleep) | ((kicked | self.forced) & pre_asleep)
+    src_val = np.where(pre_asleep, K_AWAKE, self.ta_pre)
+    for w in np.nonzero(any_woken)[0]:
+      lk = set(links.get(w, ()))
+      ety = d.efc.type.numpy()[w]
+      for r in np.nonzero((np.sum(tch[w], axis=1) > 1) & (ety[: tch.shape[1]] == 4))[0]:  # LIMIT_TENDON
+        ts = np.nonzero(tch[w, r])[0].tolist()
+        lk.update((a, b) for a in ts for b in ts if a != b)
+      cyc = _cycles(self.ta_pre[w]) or []
+      for a, b in sorted(lk | {(y, x) for x, y in lk}):
+        if not (woken[w, a] and src[w, b]):
+          continue
+        bound = int(src_val[w, b]) + 1
+        members = next((p for p in cyc if a in p), (a,))
+        for t in members:
+          if ta[w, t] > bound:
+            c.fail(
+              "monitor:wake:countdown_above_source",
+              tag(w) + f"tree {t} (sleep cycle of tree {a}) was woken in this step and touches/links tree {b} whose countdown was {int(src_val[w, b])}, "
+              f"but its own countdown is {int(ta[w, t])} > {bound}: it can fall asleep again before its waker (tree_asleep before {self.ta_pre[w].tolist()} after {ta[w].tolist()})",
+            )
     # --- justified sleep
     for w, t in zip(*np.nonzero(newly)):
       self.nsleep += 1
@@ -384,7 +494,7 @@ class Monitor:
     # --- quiet counters (samples after the step; sleeping = quiet)
     for t in range(nt):
       ds = info["tree_dofs"][t]
-      below = np.all(np.abs(qvel[:, ds] * self.L[ds]) < np.float32(TOL), axis=1)
+      below = np.all(np.abs(qvel[:, ds] * self.L[ds]) < np.float32(self.tol), axis=1)
       q = (~awake[:, t]) | (below & ~self.forced[:, t] & self.allowed[t])
       self.quiet[:, t] = np.where(q, self.quiet[:, t] + 1, 0)
     # --- bookkeeping
@@ -540,6 +650,8 @@ def _run_c(scn, trace):
         boundary[k] = True
     if lim:
       slack = np.array([mjm.tendon_range[t, 1] - mjd.ten_length[t] for t in lim])
+      if evs:
+        prev_slack = None  # a teleport is not a threshold crossing
       if np.any(np.abs(slack) < BOUNDARY) or (prev_slack is not None and np.any(np.sign(slack) != np.sign(prev_slack))):
         boundary[k] = True
       prev_slack = slack
@@ -549,7 +661,7 @@ def _run_c(scn, trace):
 def _direct(ev):
   """Trees whose wake-up by this event is discrete (no threshold involved)."""
   kind, _, arg = ev.partition(":")
-  if kind in ("xfrc", "qfrc", "kick", "tiny"):
+  if kind in ("xfrc", "qfrc", "kick", "tiny", "touch2", "touch2s", "toucheq", "touchten"):
     return {int(arg)}
   if kind == "eq":
     return {0, 1}
@@ -574,6 +686,12 @@ def _lockstep(c, label, trace, sw, sc, boundary, counts):
       counts["lockstep_desync"] += 1
       return False
     for t in range(nt):
+      if k and aw[k, t] and ac[k, t] and not aw[k - 1, t] and not ac[k - 1, t] and abs(int(sw[k, t]) - int(sc[k, t])) > 2:
+        if np.any(boundary[max(0, k - BOUNDARY_WINDOW) : k + 1]):
+          counts["lockstep_boundary"] += 1
+          return False
+        c.fail("lockstep:woken_countdown", f"trace {label} step {k}: tree {t} woke up in both engines but with countdown {int(sw[k, t])} in MJWarp and {int(sc[k, t])} in MuJoCo (MJWarp {sw[k].tolist()}, MuJoCo {sc[k].tolist()})")
+        return False
       if aw[k, t] == ac[k, t]:
         if run[t]:
           kind = "sleep" if not aw[k, t] else "wake"
@@ -635,10 +753,10 @@ def execute(scn):
 
   c = util.Cmp()
   counts = dict(states=0, transitions=0, traces_validated_against_impl=0, lockstep_desync=0, lockstep_boundary=0, extra_evaluations=0)
-  if fam == "sched":
+  if fam in ("sched", "sched2"):
     tier = scn["tier"]
     pos = QUICK_POS if tier == "quick" else tuple(range(0, 30, 3))
-    traces = [[(t, scn["e1"])] for t in pos]
+    traces = [[(t, scn["e1"])] for t in pos] if fam == "sched" else _traces2(scn["scene"])
     base, _, dbase = _run_w(scn, traces, monitor=False)
     hook = _SchedHook(scn["mode"])
     got, mon, d = _run_w(scn, traces, hook=hook, monitor=True, c=c)
@@ -651,12 +769,15 @@ def execute(scn):
         if _cycles(base[k, w]) != _cycles(got[k, w]):
           c.fail(f"schedule:{scn['mode']}:cycles", f"trace {labels[w]} step {k}: cycles {_cycles(got[k, w])} vs {_cycles(base[k, w])}")
           break
+        if fam == "sched2" and not np.array_equal(base[k, w], got[k, w]):
+          c.fail(f"schedule:{scn['mode']}:countdown", f"trace {labels[w]} step {k}: tree_asleep {got[k, w].tolist()} under schedule vs {base[k, w].tolist()} ascending")
+          break
     c.close("final qpos under schedule", d.qpos.numpy(), dbase.qpos.numpy(), "solver", vkey=f"schedule:{scn['mode']}:qpos")
     counts.update(states=len(mon.states), transitions=NSTEP * len(traces), traces_validated_against_impl=0, extra_evaluations=2 * len(traces) - 1, scheduled_launches=hook.hits)
     nontrivial = mon.nsleep > 0 and mon.nwake > 0 and hook.hits > 0
     return c.result(nontrivial=nontrivial, key=util.sha(scn), counts=counts, info=dict(traces=len(traces), hits=hook.hits))
 
-  traces = _traces(scn)
+  traces = _traces2(scn["scene"], chain=fam == "chain") if fam in ("twosrc", "chain") else _traces(scn)
   sw, mon, _ = _run_w(scn, traces, monitor=True, c=c)
   degenerate = 0
   for w, tr in enumerate(traces):
